@@ -29,7 +29,7 @@ fn build(kind: u8, d: usize, extra: &[(u32, u32, u8, u8)]) -> (BoxSource, String
         r.replace_with_enforce(s, e, ["X", "Y", "Z"][i % 3], None, enf);
         desc += &format!("({s},{e},{k},{})", ["X", "Y", "Z"][i % 3]);
         // observers between mutating calls (must not matter)
-        match obs % 4 { 1 => { let _ = r.source(); } 2 => { let _ = r.size(); } 3 => { let c = r.clone(); r = c; } _ => {} }
+        match obs % 5 { 1 => { let _ = r.source(); } 2 => { let _ = r.size(); } 3 => { let c = r.clone(); r = c; } 4 => { let _ = r.source(); let c = r.clone(); r = c; } _ => {} }
       }
       (r.boxed(), desc + "]")
     }
@@ -56,7 +56,9 @@ fn check(c: &Case) -> Option<String> {
     let c = &c2;
     let (mut a, va) = build(c.ka, c.da, &c.ea);
     let (mut b, vb) = build(c.kb, c.db, &c.eb);
-    let (a0, _) = build(c.ka, c.da, &c.ea);
+    // reference value: the same constructor calls with NO observer in between (history independence)
+    let ea0: Vec<(u32, u32, u8, u8)> = c.ea.iter().map(|&(s, e, k, _)| (s, e, k, 0)).collect();
+    let (a0, _) = build(c.ka, c.da, &ea0);
     let h0 = h(&a0);
     let src0 = a0.source().to_string();
     for &k in &c.oa { a = observe(&a, k); }
@@ -82,9 +84,9 @@ fn gen(r: &mut Rng) -> Case {
   let kb = if same { ka } else { r.below(7) as u8 };
   let da = r.below(8) as usize;
   let db = if same && r.below(3) != 0 { da } else { r.below(8) as usize };
-  let ext = |r: &mut Rng| (0..r.below(4)).map(|_| { let s = r.below(11) as u32; let e = s + r.below(4) as u32; (s, e, r.below(3) as u8, r.below(4) as u8) }).collect::<Vec<_>>();
+  let ext = |r: &mut Rng| (0..r.below(4)).map(|_| { let s = r.below(11) as u32; let e = s + r.below(4) as u32; (s, e, r.below(3) as u8, r.below(5) as u8) }).collect::<Vec<_>>();
   let ea = ext(r);
-  let eb = if same && r.below(3) != 0 { ea.iter().map(|&(s, e, k, _)| (s, e, k, r.below(4) as u8)).collect() } else { ext(r) };
+  let eb = if same && r.below(3) != 0 { ea.iter().map(|&(s, e, k, _)| (s, e, k, r.below(5) as u8)).collect() } else { ext(r) };
   Case { ka, da, kb, db, oa: (0..r.below(3)).map(|_| r.below(8) as u8).collect(), ob: (0..r.below(3)).map(|_| r.below(8) as u8).collect(), ea, eb }
 }
 fn fmt(c: &Case) -> String {
